@@ -1058,6 +1058,20 @@ func (ev *specEnv) callExpr(e *ast.CallExpr, n *specNode) Val {
 	if len(e.Args) == 1 {
 		if t := ev.tryType(e.Fun); t != nil {
 			v := arg(0)
+			if sl, ok := v.(Sl); ok {
+				if tb, ok := t.Underlying().(*types.Basic); ok && tb.Info()&types.IsString != 0 {
+					// string(bytes) / string(runes): the same function of the backing array the code's conversion uses
+					st0 := sl.GT.Underlying().(*types.Slice)
+					eb, _ := st0.Elem().Underlying().(*types.Basic)
+					class := "elem:" + typeStr(st0.Elem())
+					a := x.classTerm(ev.st, class, 2, sInt)
+					fn := "str.frombytes_"
+					if eb != nil && eb.Kind() == types.Int32 {
+						fn = "str.fromrunes_"
+					}
+					return Sc{app(sStr, fn, x.outerSelect(a, sl.Base), sl.Off, sl.Len), t}
+				}
+			}
 			if sc, ok := v.(Sc); ok {
 				if _, isI := t.Underlying().(*types.Interface); isI && sc.T.Sort != sIface {
 					return Sc{x.box(ev.st, sc, sc.GT), t}
